@@ -15,7 +15,7 @@ echo "== full suite WITH patch"; timeout 3000 cargo test --workspace --no-fail-f
 grep -E "^test .*\.\.\. FAILED" /tmp/suite_$NAME.log | sort > $OUT/suite_failed.txt
 grep -c "\.\.\. ok" /tmp/suite_$NAME.log; cat $OUT/suite_failed.txt | wc -l; cat $OUT/suite_failed.txt
 rm -f fixtures/snapshots/output-*.txt
-echo "== demo WITHOUT patch (expect pass)"; git stash -q; run_demo > $OUT/demo_without.log; grep -E "test result|FAILED|failed|DEMO-EXIT" $OUT/demo_without.log | head -5; git stash pop -q
+echo "== demo WITHOUT patch (expect pass)"; git apply -R $SO/patch.diff; run_demo > $OUT/demo_without.log; grep -E "test result|FAILED|failed|DEMO-EXIT" $OUT/demo_without.log | head -5; git apply $SO/patch.diff
 cp $SO/patch.diff $OUT/patch.diff; cp $SO/notes.md $OUT/notes.md 2>/dev/null
 rm -rf $OUT/demo; mkdir -p $OUT/demo; (cd $DEMO && tar cf - --exclude target --exclude Cargo.lock . ) | tar xf - -C $OUT/demo
 echo "== check against /repo with the patch"
